@@ -575,6 +575,46 @@ func ruleC11_3(c *Ctx) {
 			c.check(payloadArg && validGuard(k), R, fn, "payload bytes from cjson.EncodeCanonical", k.Pos(), "used only where json.Valid(bytes) is known true",
 				"the DSSE payload is canonical JSON without a validity check: cjson escapes only \\ and \", so a control character in any string (e.g. a line break in a by-product) yields bytes no JSON parser accepts, including loadPayload")
 		default:
+			// an unexported helper that is handed the payload and returns the bytes: the same allow-list applies to
+			// what it returns
+			h := k.Common().StaticCallee()
+			if payloadArg && h != nil && h.Blocks != nil && h.Pkg == sp.Pkg && (h.Object() == nil || !h.Object().Exported()) && len(h.Params) >= 1 {
+				hn := fname(h)
+				nret := 0
+				for _, r := range returnsOf(h) {
+					if ei := errIndex(h); ei >= 0 && !c.mayBeNilErr(r.Results[ei], r.Block(), 0) {
+						continue
+					}
+					nret++
+					rv := resolve(r.Results[0], r)
+					pk, _ := producer(rv, r)
+					if pk == nil {
+						c.undecided(R, hn, "payload bytes producer", instrPos(r), "the returned bytes come from an unrecognised source: "+short(org(rv)))
+						continue
+					}
+					pn := calleeName(pk)
+					fromParam := len(pk.Common().Args) > 0 && resolve(pk.Common().Args[0], pk) == ssa.Value(h.Params[0])
+					switch pn {
+					case "encoding/json.Marshal", "encoding/json.MarshalIndent":
+						c.check(fromParam, R, hn, "payload bytes from "+pn, pk.Pos(), "standard JSON encoding of the payload parameter", "encodes "+short(org(pk.Common().Args[0])))
+					case "ssl/cjson.EncodeCanonical":
+						guarded := false
+						for _, v := range callsIn(h, "encoding/json.Valid") {
+							if resolve(v.Common().Args[0], v) == resultN(pk, 0) && c.condAt(v.Value(), true, r.Block()) {
+								guarded = true
+							}
+						}
+						c.check(fromParam && guarded, R, hn, "payload bytes from cjson.EncodeCanonical", pk.Pos(), "returned only where json.Valid(bytes) is known true",
+							"the DSSE payload is canonical JSON without a validity check: cjson escapes only \\ and \", so a control character in any string yields bytes no JSON parser accepts, including loadPayload")
+					default:
+						c.undecided(R, hn, "payload bytes from "+pn, pk.Pos(), "unknown encoder (allow-list: encoding/json.Marshal, MarshalIndent; cjson.EncodeCanonical only under json.Valid)")
+					}
+				}
+				if nret == 0 {
+					c.bad(R, hn, "payload bytes producer", h.Pos(), "the helper never returns bytes with a nil error")
+				}
+				continue
+			}
 			c.undecided(R, fn, "payload bytes from "+n, k.Pos(), "unknown encoder (allow-list: encoding/json.Marshal, MarshalIndent; cjson.EncodeCanonical only under json.Valid)")
 		}
 	}
@@ -829,10 +869,43 @@ func ruleC12_2(c *Ctx) {
 			}
 			okReq = okReq && okErr
 		}
+		reqInHelper := false
+		if req == nil && dec != nil {
+			// the check may sit in the helper that also decodes: checkRequiredJSONFields(fields,
+			// reflect.TypeOf(target).Elem()) with target the parameter that receives &Link / &Layout here
+			for _, sd := range c.strictDecodes(f) {
+				if sd.site != dec || sd.frame == f {
+					continue
+				}
+				prm, isP := resolve(sd.decode.Common().Args[1], sd.decode).(*ssa.Parameter)
+				if !isP {
+					continue
+				}
+				for _, rq := range callsIn(sd.frame, "in_toto.checkRequiredJSONFields") {
+					el, ok := resolve(rq.Common().Args[1], rq).(*ssa.Call)
+					if !ok || !el.Call.IsInvoke() || el.Call.Method.Name() != "Elem" {
+						continue
+					}
+					tc, ok := el.Call.Value.(*ssa.Call)
+					if !ok || calleeName(tc) != "reflect.TypeOf" || resolve(tc.Call.Args[0], tc) != ssa.Value(prm) {
+						continue
+					}
+					okErr := false
+					if e := errResult(rq); e != nil {
+						for _, br := range errBranches(e) {
+							okErr = okErr || c.failing(br.NonNil)
+						}
+					}
+					if okErr && sd.targetT == "*"+wantT && sd.errFails && instrDominates(rq, sd.decode) {
+						okReq, reqInHelper = true, true
+					}
+				}
+			}
+		}
 		c.check(okReq, R, fn, "required fields of "+wantT+" are checked for _type "+marker, f.Pos(), "checkRequiredJSONFields(payload, reflect.TypeOf("+wantT+"{})) with failing error", "the required-field check for marker "+marker+" is missing, uses another type, or its error is ignored")
 		okDec := false
 		if dec != nil {
-			okDec = decT == "*"+wantT && (req == nil || instrDominates(req, dec))
+			okDec = decT == "*"+wantT && (req == nil || reqInHelper || instrDominates(req, dec))
 		}
 		c.check(okDec, R, fn, "_type "+marker+" decodes into "+wantT+" after the required-field check", f.Pos(), "Decode(&"+wantT+")", "marker "+marker+" does not decode into "+wantT)
 	}
@@ -868,9 +941,18 @@ func ruleC12_2(c *Ctx) {
 	}
 	c.check(okAll, R, fname(g), "every struct field is visited", g.Pos(), "loop i < typ.NumField()", "not every field of the type is examined")
 	okOmit := false
-	for _, call := range callsIn(g, "strings.Contains") {
-		if s, _ := constString(call.Common().Args[1]); s == "omitempty" {
-			okOmit = true
+	// in the function itself or in an unexported helper it calls (a tag-parsing helper)
+	frames := []*ssa.Function{g}
+	for _, call := range allCalls(g) {
+		if h := call.Common().StaticCallee(); h != nil && h.Blocks != nil && h.Pkg == g.Pkg && (h.Object() == nil || !h.Object().Exported()) {
+			frames = append(frames, h)
+		}
+	}
+	for _, fr := range frames {
+		for _, call := range callsIn(fr, "strings.Contains") {
+			if s, _ := constString(call.Common().Args[1]); s == "omitempty" {
+				okOmit = true
+			}
 		}
 	}
 	okMissing := false
